@@ -65,6 +65,17 @@ def bpf2go_padding(ctx, fake):
     return {dst: outp}
 
 
+DIAG = re.compile(r" (ck=\[[^\]]*\]|ev=\[[^\]]*\]|ovf=\S+)")
+
+
+def strip_diagnostics(line):
+    return DIAG.sub("", line) if line.startswith("v=") else line
+
+
+def diag_only(line):
+    return " ".join(DIAG.findall(line))
+
+
 def scenario_replay(ops, lineno, limit=400):
     """the ops of the scenario containing line `lineno` (1-based), from its `note scen`/`note witness`
     marker (plus the stream's caps line) up to and including the failing op"""
@@ -158,7 +169,7 @@ def run(ctx):
         ctx.say("HARNESS-FAILED (retrieve pass)", out[-3000:])
         return 2
 
-    n_frames = n_parse = n_retr = n_retr_skipped = n_const = n_twin_frames = 0
+    n_frames = n_parse = n_retr = n_retr_skipped = n_const = n_twin_frames = n_diag_diffs = 0
     distinct = set()
     verdicts = collections.Counter()
     branch = collections.Counter()
@@ -193,20 +204,21 @@ def run(ctx):
                     n_retr_skipped += 1
             else:
                 merged.append(cl[i])
-        open(merged_p, "w").write("\n".join(merged) + "\n")
-        skipset = skip
-        idx = {"i": -1}
-
-        def canon_factory():
-            # diff_streams calls canon(impl_i), canon(model_i) in order: blank both when line i is skipped
-            state = {"n": 0}
-
-            def canon(s):
-                i = state["n"] // 2
-                state["n"] += 1
-                return "" if i in skipset else s
-            return canon
-        mism = ctx.diff_streams(ops_p, merged_p, model_p, n, canon=canon_factory())
+        # lines that are not compared (constants: three-way below; lookups decided by host scheduling) are blanked
+        # in BOTH files; diagnostics the property does not speak about (cookie last-seen refresh, ring-buffer
+        # events, overflow counters) are cut out of the compared text and diffed separately as NOTEs
+        merged_cmp = ["skipped" if i in skip else m for i, m in enumerate(merged)]
+        model_cmp = ["skipped" if i in skip else m for i, m in enumerate(model)]
+        open(merged_p, "w").write("\n".join(merged_cmp) + "\n")
+        model_cmp_p = os.path.join(ctx.out, n + ".model_cmp")
+        open(model_cmp_p, "w").write("\n".join(model_cmp) + "\n")
+        mism = ctx.diff_streams(ops_p, merged_p, model_cmp_p, n, canon=strip_diagnostics)
+        for i, (a, b) in enumerate(zip(merged_cmp, model_cmp)):
+            if a != b and strip_diagnostics(a) == strip_diagnostics(b):
+                n_diag_diffs += 1
+                if n_diag_diffs <= 3:
+                    ctx.say(f"NOTE property=C03 diagnostics outside the property differ at {n}:{i+1} (cookie last-seen / events / "
+                            f"overflow counters): impl `{diag_only(a)}` model `{diag_only(b)}`")
         for ln, op, im, mo in mism[:6]:
             kind = op.split(" ", 1)[0]
             what = {"frame": "TC program result (verdict / skb / touched map bytes) differs from the proved model",
@@ -290,7 +302,7 @@ def run(ctx):
                     n_twin_frames += 1
                 if "rr=skip-boundary" in (a, b):
                     continue
-                if a != b:
+                if strip_diagnostics(a) != strip_diagnostics(b):
                     queue(1, f"verdict depends on the header-parsing path ({n} scenario {sid}): fully linear skb `{a[:200]}` vs `{b[:200]}` for op `{ops[ib][:120]}`",
                                {"stream": n, "scenario": sid, "op_linear": ops[ia][:4000], "op_other": ops[ib][:4000], "impl_linear": a[:4000],
                                 "impl_other": b[:4000], "ops": scenario_replay(ops, ib + 1), "replay": replay_cmd})
@@ -332,6 +344,10 @@ def run(ctx):
                            f"dae SYN v={v(w[2][1])}, dae ACK v={v(w[3][1])} (expected 0/0)",
                            {"ops": [o for o, _ in w], "impl": [c for _, c in w], "replay": replay_cmd},
                            key="c03-dae-tcp-established-recapture")
+        w = per.get("reverse-syn-restarts", [])
+        if len(w) == 4:
+            # informational (design note, observation "reverse SYN"; theorem reverse_syn_restarts_tracking_as_wan_originated)
+            wit["reverse-syn-restarts (observation)"] = [v(x[1]) for x in w]
         w = per.get("synack-parse-paths", [])
         if len(w) == 5:
             wit["synack-parse-paths"] = [w[0][1][:40], v(w[3][1]), v(w[4][1])]
@@ -354,6 +370,7 @@ def run(ctx):
     ctx.cov["twin_frames_compared"] = n_twin_frames
     ctx.cov["const_lines_three_way"] = n_const
     ctx.cov["retr_skipped_boundary"] = n_retr_skipped
+    ctx.cov["diagnostic_only_differences"] = n_diag_diffs
     ctx.assumptions = [
         "frames, rule programs, connectivity states, clocks and interleavings are generated (seeded): what was not generated was not compared",
         "the parse-path choice (linear length, bpf_skb_pull_data result), socket cookie and socket-lookup result are inputs of a frame (oracles)",
